@@ -35,7 +35,18 @@ def run(case, max_steps=100000):
     attempts = []     # (thread, round, start_step, end_step, ok)
     with World(schedule=case['sched'], trace=TRACE, modules=(F,), max_steps=max_steps) as w:
         sim = w.sim
-        objs = [F.FileLock(path, timeout=o['timeout'], reentrant=o['reentrant']) for o in case['objs']]
+        def spelled(how):
+            # the same lock file named in different ways: str, pathlib.Path, or an os.PathLike whose str() is not
+            # its path (os.DirEntry)
+            if how == 'pathlib':
+                import pathlib
+                return pathlib.Path(path)
+            if how == 'direntry':
+                open(path, 'a').close()
+                with os.scandir(os.path.dirname(path)) as it:
+                    return next(e for e in it if e.name == os.path.basename(path))
+            return path
+        objs = [F.FileLock(spelled(o.get('path', 'str')), timeout=o['timeout'], reentrant=o['reentrant']) for o in case['objs']]
 
         def critical(i, r, d):
             state['occ'] += 1
